@@ -144,3 +144,49 @@ Definition mapB_set {V} (m : list (bytes * V)) (k : bytes) (v : V) : list (bytes
 (* m[i][k] = v on a map of maps: Go panics when the row m[i] is missing (assignment to entry in nil map) *)
 Definition map2_set {V} (m : list (Z * list (Z * V))) (i k : Z) (v : V) : option (list (Z * list (Z * V))) :=
   match lookupZ m i with None => None | Some row => Some (mapZ_replace m i (mapZ_set row k v)) end.
+
+(* ---- maps keyed by a string ---- *)
+Definition gomapB (V : Type) : Type := option (list (bytes * V)).    (* a map-typed field; None = the nil map *)
+Definition mapB_get {V} (m : gomapB V) (k : bytes) : option V :=
+  match m with Some l => lookupB l k | None => None end.
+Definition mapB_get_or {V} (m : gomapB V) (k : bytes) (zero : V) : V :=
+  match mapB_get m k with Some v => v | None => zero end.
+(* m[k] = v: panics on the nil map (None) *)
+Definition gomapB_set {V} (m : gomapB V) (k : bytes) (v : V) : option (gomapB V) :=
+  match m with Some l => Some (Some (mapB_set l k v)) | None => None end.
+(* l[i] on a slice: panics outside 0..len-1 *)
+Definition list_at {A} (l : list A) (i : Z) : option A := if i <? 0 then None else nth_error l (Z.to_nat i).
+
+(* ---- slices that may share their backing array ----
+   A heap is the list of the arrays allocated so far; a slice is (array, offset, length, capacity).
+   make allocates a new array; v[i] = x and copy write into the array of the slice; append writes into the
+   spare capacity of the SAME array when there is some (that is how two appends to one parent slice can
+   disturb each other) and otherwise allocates (the new capacity is the parameter [growcap]). *)
+Definition heap (A : Type) : Type := list (list A).
+Definition hslice : Type := (nat * nat * nat * nat)%type.
+Definition h_len (s : hslice) : Z := let '(_, _, l, _) := s in Z.of_nat l.
+Definition h_read {A} (h : heap A) (s : hslice) : list A :=
+  let '(a, o, l, _) := s in firstn l (skipn o (nth a h [])).
+Definition h_write {A} (cells : list A) (o : nat) (vals : list A) : list A :=
+  firstn o cells ++ vals ++ skipn (o + List.length vals) cells.
+Definition h_make {A} (h : heap A) (n : Z) (zero : A) : option (hslice * heap A) :=
+  if n <? 0 then None
+  else Some ((List.length h, 0%nat, Z.to_nat n, Z.to_nat n), h ++ [repeat zero (Z.to_nat n)]).
+Definition h_set {A} (h : heap A) (s : hslice) (i : Z) (x : A) : option (heap A) :=
+  let '(a, o, l, _) := s in
+  if (i <? 0) || (Z.of_nat l <=? i) then None
+  else Some (replace_nth a h (h_write (nth a h []) (o + Z.to_nat i) [x])).
+Definition h_copy {A} (h : heap A) (dst : hslice) (src : list A) : Z * heap A :=
+  let '(a, o, l, _) := dst in
+  let vals := firstn l src in
+  (Z.of_nat (List.length vals), replace_nth a h (h_write (nth a h []) o vals)).
+Definition h_append {A} (growcap : nat -> nat) (h : heap A) (s : hslice) (x : A) : hslice * heap A :=
+  let '(a, o, l, c) := s in
+  if (l <? c)%nat
+  then ((a, o, S l, c), replace_nth a h (h_write (nth a h []) (o + l) [x]))
+  else ((List.length h, 0%nat, S l, Nat.max (S l) (growcap (S l))),
+        h ++ [h_read h s ++ x :: repeat x (Nat.max (S l) (growcap (S l)) - S l)]).
+
+(* make([]byte, n, c): n zero bytes visible, c - n spare; panics unless 0 <= n <= c (None) *)
+Definition sl_make (n c : Z) : option gslice :=
+  if (n <? 0) || (c <? n) then None else Some (repeat x00 (Z.to_nat n), repeat x00 (Z.to_nat (c - n))).
